@@ -43,8 +43,9 @@ type PInfo struct {
 }
 
 type Model struct {
-	Init  map[string]string // depositor -> initial FX balance
-	Props map[uint64]*PInfo
+	Init   map[string]string // depositor -> initial FX balance
+	Props  map[uint64]*PInfo
+	Burned map[string]string // depositor -> deposits the reference expects to have been burned (vetoed proposals)
 }
 
 func (m *Model) Clone() explore.Model {
@@ -71,7 +72,7 @@ func (s *Spec) Init() *explore.State {
 	if err := w.App.DistrKeeper.FundCommunityPool(ctx, sdk.NewCoins(world.FXCoin(600000)), w.A("bank").Acc()); err != nil {
 		panic(err)
 	}
-	m := &Model{Init: map[string]string{}, Props: map[uint64]*PInfo{}}
+	m := &Model{Init: map[string]string{}, Props: map[uint64]*PInfo{}, Burned: map[string]string{}}
 	for _, d := range depositors {
 		m.Init[d] = w.App.BankKeeper.GetBalance(ctx, w.A(d).Acc(), "FX").Amount.String()
 	}
@@ -248,10 +249,13 @@ func (s *Spec) Ops(st *explore.State) []explore.Op {
 				if has, _ := gk.HasVote(st.Ctx, id, voters[vn].Acc()); has {
 					continue
 				}
-				for _, opt := range []govv1.VoteOption{govv1.OptionYes, govv1.OptionNo} {
+				for _, opt := range []govv1.VoteOption{govv1.OptionYes, govv1.OptionNo, govv1.OptionNoWithVeto} {
 					vn, opt := vn, opt
 					if vn != "d1" && opt == govv1.OptionNo {
 						continue
+					}
+					if vn == "val1" && opt == govv1.OptionNoWithVeto {
+						continue // vetoes come from the delegator and the second validator (1/3 and 2/3 of the votes)
 					}
 					ops = append(ops, explore.Op{Name: fmt.Sprintf("Vote(%d,%s,%s)", id, vn, opt.String()[12:]), Run: func(c *explore.State) {
 						r := w.Deliver(c.Ctx, govv1.NewMsgVote(voters[vn].Acc(), id, opt, ""))
@@ -290,6 +294,8 @@ func (s *Spec) advance(c *explore.State, dt time.Duration) {
 		end     time.Time
 		turnout sdkmath.LegacyDec
 		yesShare sdkmath.LegacyDec
+		vetoShare sdkmath.LegacyDec
+		deposits map[string]sdkmath.Int // depositor name -> stored deposit
 	}
 	before := map[uint64]snap{}
 	bonded, _ := w.App.StakingKeeper.TotalBondedTokens(c.Ctx)
@@ -308,7 +314,14 @@ func (s *Spec) advance(c *explore.State, dt time.Duration) {
 		// turnout computed by the reference from the raw votes and delegations
 		voted := sdkmath.ZeroInt()
 		yes := sdkmath.ZeroInt()
+		veto := sdkmath.ZeroInt()
 		counted := map[string]sdkmath.Int{}
+		sn.deposits = map[string]sdkmath.Int{}
+		for _, d := range depositors {
+			if dep, err := gk.Deposits.Get(c.Ctx, collectionsJoin(id, w.A(d).Acc())); err == nil {
+				sn.deposits[d] = sdk.NewCoins(dep.Amount...).AmountOf("FX")
+			}
+		}
 		// delegator d1 overrides its share of val1's vote
 		power := map[string]sdkmath.Int{"val1": world.FX(100), "val2": world.FX(100), "d1": world.FX(100)}
 		voters := map[string]world.Actor{"val1": w.Vals[0].Operator, "val2": w.Vals[1].Operator, "d1": w.A("d1")}
@@ -321,6 +334,9 @@ func (s *Spec) advance(c *explore.State, dt time.Duration) {
 			voted = voted.Add(power[n])
 			if len(v.Options) == 1 && v.Options[0].Option == govv1.OptionYes {
 				yes = yes.Add(power[n])
+			}
+			if len(v.Options) == 1 && v.Options[0].Option == govv1.OptionNoWithVeto {
+				veto = veto.Add(power[n])
 			}
 		}
 		// a validator that votes also carries the stake of its delegators who did not vote
@@ -335,10 +351,16 @@ func (s *Spec) advance(c *explore.State, dt time.Duration) {
 		sn.turnout = sdkmath.LegacyNewDecFromInt(voted).Quo(sdkmath.LegacyNewDecFromInt(bonded))
 		if voted.IsPositive() {
 			sn.yesShare = sdkmath.LegacyNewDecFromInt(yes).Quo(sdkmath.LegacyNewDecFromInt(voted))
+			sn.vetoShare = sdkmath.LegacyNewDecFromInt(veto).Quo(sdkmath.LegacyNewDecFromInt(voted))
 		} else {
 			sn.yesShare = sdkmath.LegacyZeroDec()
+			sn.vetoShare = sdkmath.LegacyZeroDec()
 		}
 		before[id] = sn
+	}
+	preBal := map[string]sdkmath.Int{} // the block boundary writes into the same store branch: balances are read first
+	for _, d := range depositors {
+		preBal[d] = w.App.BankKeeper.GetBalance(c.Ctx, w.A(d).Acc(), "FX").Amount
 	}
 	mid, r1 := w.NextBlock(c.Ctx, dt)
 	next, r2 := w.NextBlock(mid, 5*time.Second)
@@ -384,7 +406,33 @@ func (s *Spec) advance(c *explore.State, dt time.Duration) {
 		q, _ := sdkmath.LegacyNewDecFromStr(p.Quorum)
 		_, qNowStr := s.periodAndQuorum(mid, p)
 		qNow, _ := sdkmath.LegacyNewDecFromStr(qNowStr)
-		yesOK := sn.yesShare.GT(sdkmath.LegacyNewDecWithPrec(5, 1))
+		third := sdkmath.LegacyOneDec().QuoInt64(3)
+		vetoed := sn.vetoShare.GT(third)
+		yesOK := sn.yesShare.GT(sdkmath.LegacyNewDecWithPrec(5, 1)) && !vetoed
+		// a vetoed proposal (quorum reached, more than a third of the votes veto) burns its deposits; every other
+		// outcome refunds them (default parameters: burn_vote_veto on, burn_vote_quorum and burn_proposal_deposit_prevote off)
+		burn := vetoed && sn.turnout.GTE(q) && sn.turnout.GTE(qNow)
+		if vetoed && sn.turnout.GTE(q) != sn.turnout.GTE(qNow) {
+			// the quorum in force changed between activation and tally and the turnout lies in between: the text does not
+			// say which value counts, so the implementation's choice (refund or burn, for all depositors alike) is adopted
+			for d, amt := range sn.deposits {
+				if amt.IsPositive() {
+					got := w.App.BankKeeper.GetBalance(next, w.A(d).Acc(), "FX").Amount.Sub(preBal[d])
+					burn = !got.Equal(amt)
+					break
+				}
+			}
+		}
+		if burn {
+			for d, amt := range sn.deposits {
+				old, ok := sdkmath.NewIntFromString(m.Burned[d])
+				if !ok {
+					old = sdkmath.ZeroInt()
+				}
+				m.Burned[d] = old.Add(amt).String()
+			}
+			c.Outcome = "vetoed"
+		}
 		refPass := sn.turnout.GTE(q) && yesOK
 		refPassNow := sn.turnout.GTE(qNow) && yesOK
 		passed := prop.Status == govv1.StatusPassed || prop.Status == govv1.StatusFailed
@@ -443,8 +491,12 @@ func (s *Spec) Check(st *explore.State) {
 			open = sdkmath.ZeroInt()
 		}
 		have := w.App.BankKeeper.GetBalance(ctx, w.A(d).Acc(), "FX").Amount
-		if !have.Add(open).Equal(init.Add(received[d])) {
-			st.Violate("each-deposit-returned-exactly-once", sig("depositor-balance-plus-open-deposits-differs-from-initial"), fmt.Sprintf("%s: balance %s + open deposits %s != initial %s + received spends %s", d, have, open, init, received[d]))
+		burned, ok := sdkmath.NewIntFromString(m.Burned[d])
+		if !ok {
+			burned = sdkmath.ZeroInt()
+		}
+		if !have.Add(open).Add(burned).Equal(init.Add(received[d])) {
+			st.Violate("each-deposit-returned-exactly-once", sig("depositor-balance-plus-open-deposits-differs-from-initial"), fmt.Sprintf("%s: balance %s + open deposits %s + burned (vetoed) %s != initial %s + received spends %s", d, have, open, burned, init, received[d]))
 		}
 	}
 }
